@@ -43,29 +43,75 @@ def _gate(fl):
     return problems
 
 
-# ---- C03: addConn announces the conn before it publishes it: open notification, then fd table, then epoll
+# ---- C03: addConn = closed test under the mutex (model step addCheck), then c.p (addP), open notification (addOpen),
+# fd table (addTable), epoll registration (addReg) — in this order, as separate statements
 def _addconn_order(fl):
-    def first(kind, expr, write=None):
-        ls = [f["line"] for f in fl if f["kind"] == kind and f["expr"] == expr and (write is None or bool(f.get("write")) == write)]
+    def first(kind, expr, write=None, held=None):
+        ls = [f["line"] for f in fl if f["kind"] == kind and f["expr"] == expr and (write is None or bool(f.get("write")) == write)
+              and (held is None or held in f["held"])]
         return min(ls) if ls else None
+    k = first("access", "c.closed", None, "c.mux")
+    p = first("access", "c.p", True)
     o = first("call", "recv.g.onOpen")
     t = first("access", "recv.g.connsUnix", True)
-    r = min([x for x in (first("call", "recv.addRead"), first("call", "recv.addReadWrite")) if x is not None] or [None]) \
-        if (first("call", "recv.addRead") or first("call", "recv.addReadWrite")) else None
-    if None in (o, t, r):
-        return ["addConn: onOpen / connsUnix write / addRead not all found (%s, %s, %s)" % (o, t, r)]
-    if not (o < t < r):
-        return ["addConn: order is not onOpen(%d) < connsUnix[fd]=c(%d) < addRead(%d)" % (o, t, r)]
+    regs = [x for x in (first("call", "recv.addRead"), first("call", "recv.addReadWrite")) if x is not None]
+    r = min(regs) if regs else None
+    if None in (k, p, o, t, r):
+        return ["addConn: locked closed test / c.p write / onOpen / connsUnix write / addRead not all found (%s, %s, %s, %s, %s)" % (k, p, o, t, r)]
+    if not (k < p < o < t < r):
+        return ["addConn: order is not closed test(%d) < c.p = p(%d) < onOpen(%d) < connsUnix[fd]=c(%d) < addRead(%d)" % (k, p, o, t, r)]
+    bad = [f["line"] for f in fl if f["kind"] == "access" and f["expr"] == "c.closed" and "c.mux" not in f["held"]]
+    if bad:
+        return ["addConn: c.closed read without c.mux at line %d" % bad[0]]
     return []
 
 
-# ---- C03: the teardown reports a pending dial and notifies; it does not take the mutex itself
+# ---- C03: DialAsyncTimeout arms the dial timeout (model step armDial) in one locked region together with the test
+# "not closed and the dial callback still stored", after the registration (addDialer)
+def _arm_dial(fl):
+    problems = []
+    fl0 = [f for f in fl if f["closure"] == 0]
+    arm = [f for f in fl0 if f["kind"] == "access" and f["expr"] == "c.wTimer" and f.get("write")]
+    if not arm:
+        return ["DialAsyncTimeout: no write of c.wTimer (predicate vacuous)"]
+    reg = [f["line"] for f in fl0 if f["kind"] == "call" and f["expr"] == "recv.addDialer"]
+    for f in arm:
+        if "c.mux" not in f["held"]:
+            problems.append("DialAsyncTimeout: c.wTimer written at line %d without c.mux held" % f["line"])
+        if not reg or f["line"] < min(reg):
+            problems.append("DialAsyncTimeout: c.wTimer written before addDialer")
+    for fld in ("c.closed", "c.onConnected"):
+        tests = [f for f in fl0 if f["kind"] == "access" and f["expr"] == fld and not f.get("write") and "c.mux" in f["held"]]
+        if not tests:
+            problems.append("DialAsyncTimeout: no test of %s under c.mux before the dial timeout is armed" % fld)
+    if [f for f in fl0 if f["kind"] == "call" and f["expr"] == "c.setDeadline"]:
+        problems.append("DialAsyncTimeout: arms the dial timeout through setDeadline (no pending test)")
+    return problems
+
+
+# ---- C03: the teardown (one model step) does its effects in the order the model's theorems and the oracles rely on:
+# record the cause, report a pending dial, leave the fd table + notify (deleteConn), close the descriptor last (so
+# that the descriptor number cannot be reused while the conn is still in the table); it does not take the mutex itself
 def _teardown(fl):
     problems = []
-    if not [f for f in fl if f["kind"] == "call" and f["expr"] == "onConnected"]:
+
+    def lines(kind, exprs, write=None):
+        return [f["line"] for f in fl if f["kind"] == kind and f["expr"] in exprs and (write is None or bool(f.get("write")) == write)]
+    cause = lines("access", ("recv.closeErr",), True)
+    dial = lines("call", ("onConnected",))
+    dele = lines("call", ("recv.p.deleteConn",))
+    clo = lines("call", ("syscall.Close", "vsys.Close", "recv.connUDP.Close"))
+    if not cause:
+        problems.append("closeWithErrorWithoutLock: does not record closeErr")
+    if not dial:
         problems.append("closeWithErrorWithoutLock: does not invoke a pending dial callback")
-    if not [f for f in fl if f["kind"] == "call" and f["expr"] == "recv.p.deleteConn"]:
+    if not dele:
         problems.append("closeWithErrorWithoutLock: does not call p.deleteConn")
+    if not clo:
+        problems.append("closeWithErrorWithoutLock: does not close the descriptor")
+    if not problems and not (max(cause) < min(dial) and max(dial) < min(dele) and max(dele) < min(clo)):
+        problems.append("closeWithErrorWithoutLock: order is not closeErr(%s) < dial callback(%s) < deleteConn(%s) < close(%s)"
+                        % (cause, dial, dele, clo))
     if [f for f in fl if f["kind"] == "lock" and f["expr"] == "recv.mux"]:
         problems.append("closeWithErrorWithoutLock: takes recv.mux itself")
     return problems
@@ -74,6 +120,9 @@ def _teardown(fl):
 C02_CS = [
     _custom("asyncread_gate_atomic_cas", "conn_unix.go", "nbio.Conn.AsyncRead", _gate),
     cs.CLOSE[1],   # ReadAndGetConn: closed test and doRead under the mutex (one read = one model step)
+    # ResetPollerEvent (the model's `rearm`): closed test, look at the write list and EPOLL_CTL_MOD in one locked region
+    cs.pred("rearm_closed_test_and_mod_locked", "poller_epoll.go", "nbio.Conn.ResetPollerEvent", closure=0,
+            guarded={"recv.mux": ["recv.closed", "recv.writeList"]}, held_calls={"recv.mux": ["p.resetRead", "p.modWrite"]}),
 ]
 
 C03_CS = [
@@ -84,6 +133,7 @@ C03_CS = [
     cs.pred("dialed_takes_callback_locked", "conn_unix.go", "nbio.Conn.dialed", closure=0,
             guarded={"recv.mux": ["recv.closed", "recv.onConnected"]},
             unheld_calls={"recv.mux": ["onConnected", "recv.closeWithError"]}, held_calls={"recv.mux": ["recv.resetRead"]}),
-    _custom("addconn_open_table_register", "poller_epoll.go", "nbio.poller.addConn", _addconn_order),
-    _custom("teardown_reports_dial_and_notifies", "conn_unix.go", "nbio.Conn.closeWithErrorWithoutLock", _teardown),
+    _custom("addconn_test_p_open_table_register", "poller_epoll.go", "nbio.poller.addConn", _addconn_order),
+    _custom("dial_timeout_armed_locked_while_pending", "engine_unix.go", "nbio.Engine.DialAsyncTimeout", _arm_dial),
+    _custom("teardown_cause_dial_notify_close_in_order", "conn_unix.go", "nbio.Conn.closeWithErrorWithoutLock", _teardown),
 ]
